@@ -96,6 +96,20 @@ def build_pool(d):
     r = vcommon.run([vcommon.tool("plain", "gensquashfs"), "--pack-dir", src2, "-c", "gzip", "-b", "4096", "-q", p], timeout=120)
     if r.rc == 0:
         pool.append(describe(p, damaged=False))
+    # more than 512 distinct xattr sets: the descriptor table of the xattr reader has a second block
+    src3 = os.path.join(d, "src3")
+    os.makedirs(src3)
+    with open(os.path.join(src3, "pack.txt"), "w") as fh:
+        for i in range(700):
+            fh.write("pipe /p%03d 0644 0 0\n" % i)
+        fh.write("dir /d 0755 0 0\nfile /d/data 0644 0 0 xattr.txt\n")
+    with open(os.path.join(src3, "xattr.txt"), "w") as fh:
+        for i in range(700):
+            fh.write("# file: p%03d\nuser.n=\"%d\"\nuser.shared=\"a value that is stored out of line because several sets use it\"\n\n" % (i, i))
+    p = os.path.join(d, "tool_manyxattr.sqfs")
+    r = vcommon.run([vcommon.tool("plain", "gensquashfs"), "-F", os.path.join(src3, "pack.txt"), "-A", os.path.join(src3, "xattr.txt"), "-D", src3, "-c", "gzip", "-b", "4096", "-q", p], timeout=120)
+    if r.rc == 0:
+        pool.append(describe(p, damaged=False))
     for dc in (False, True):
         img, lay = sqfswrite.build(sqfswrite.simple_tree(), data_comp=dc, pad=4096)
         p = os.path.join(d, "py_%d.sqfs" % dc)
@@ -136,7 +150,7 @@ def describe(path, damaged):
 
 @st.composite
 def cases(draw, tier="quick"):
-    npool = 30
+    npool = 31
     pi = draw(st.integers(0, npool - 1))
     nops = draw(st.integers(3, 40))
     ops = []
